@@ -3,7 +3,10 @@
 From OfxV Require Import Base.Prelude Base.Digits Gen.ScalarsGen Model.PyDecimal Model.Scalars Model.ScalarsLex Proofs.ScalarsText Proofs.PyDecimalProofs Proofs.ScalarsProofs Proofs.ScalarsLexProofs.
 Local Open Scope N_scope.
 Theorem T_bad_text_rejected_on_read : forall e s,
-  (elem_sty e = TBool -> s <> [89] -> s <> [78] -> convert e (PStr s) = Err Reject) /  (forall valid, elem_sty e = TOneOf valid -> s <> [] -> ~ In s valid -> convert e (PStr s) = Err Reject) /  (forall l, elem_sty e = TInteger l -> s <> [] -> has_digit s = false -> convert e (PStr s) = Err Reject) /  (forall sc, elem_sty e = TDecimal sc -> has_digit s = false -> is_ok (convert e (PStr s)) = false).
+  (elem_sty e = TBool -> s <> [89] -> s <> [78] -> convert e (PStr s) = Err Reject) /\
+  (forall valid, elem_sty e = TOneOf valid -> s <> [] -> ~ In s valid -> convert e (PStr s) = Err Reject) /\
+  (forall l, elem_sty e = TInteger l -> s <> [] -> has_digit s = false -> convert e (PStr s) = Err Reject) /\
+  (forall sc, elem_sty e = TDecimal sc -> has_digit s = false -> is_ok (convert e (PStr s)) = false).
 Proof.
   intros e s. rewrite convert_elem. repeat split.
   - intros -> H1 H2. exact (bool_bad_text _ s H1 H2).
